@@ -94,6 +94,17 @@ def _run_model(case, ctx):
     from pgverif.core import _h
     dg = _h(P)
     ps = GM.sample_pressures(name, P, r, 6)
+    # a few pressures shared by every case (different isotherms of one model evaluated at exactly the same pressure in one process)
+    wlo, whi = GM.pressure_window(name, P)
+    ps = sorted(set(list(ps) + [x for x in (0.01, 0.05, 0.3, 0.5, 1.0) if wlo < x < whi * 0.98]))
+    # ... and another isotherm of the same model (other parameters) has just been evaluated at these pressures
+    try:
+        other = GM.make_model(name, GM.random_params(name, r, typed=False), temperature=T)
+        for x in ps:
+            _call(other.spreading_pressure, x)
+        ctx.count("interference", name)
+    except Exception:
+        pass
     uses_quad = name in GM.QUAD_SPREADING
     rt = 2e-6 if uses_quad else 1e-7
     vals = []
